@@ -214,7 +214,7 @@ pub fn gen_format(r: &mut Rng, benign_only: bool) -> Vec<FormatElement> {
     for _ in 0..n {
         match r.below(5) {
             0 if !matches!(v.last(), Some(FormatElement::Literal(_))) => {
-                let lits = ["x", ",", " ", "abc", ":", "-", "size=", "p", "line\n", "\n", "~a", "q\"q"];
+                let lits = ["x", ",", " ", "abc", ":", "-", "size=", "p", "line\n", "\n", "~a", "q\"q", "caf\u{e9} ", "\u{4e2d}\u{6587}:", "\u{1f600}", "e\u{301}=", "\u{a0}"];
                 v.push(FormatElement::Literal(r.pick(&lits).to_string()))
             }
             1 => {
@@ -298,8 +298,23 @@ fn gen_cmp_t(r: &mut Rng) -> Comparison<TimeSpec> {
 }
 
 pub const UNSUPPORTED_TESTS: usize = 13;
+/// Argument values for constructs the target cannot express: besides a neutral word, the values for which
+/// the construct would be trivially true (or trivially decidable) on a Lustre scan - the ones a well-meant
+/// shortcut would special-case.
+pub const UNSUPPORTED_ARGS: &[&str] = &[
+    "arg", "lustre", "Lustre", "ext4", "nfs", "tmpfs", "root", "0", "nobody", "wheel", "65534", ".*", ".", "*", "", "/", "./", "..", "/dev/null", "/mnt/lustre", "^", "$", ".+", "a|", "[^/]*", "/proc/self", "-", "x",
+];
+
+pub fn gen_unsupported_test_with(k: usize, r: &mut Rng) -> Test {
+    let s = if r.chance(1, 3) { "arg".to_string() } else { r.pick(UNSUPPORTED_ARGS).to_string() };
+    unsupported_test(k, s)
+}
+
 pub fn gen_unsupported_test(k: usize) -> Test {
-    let s = "arg".to_string();
+    unsupported_test(k, "arg".to_string())
+}
+
+fn unsupported_test(k: usize, s: String) -> Test {
     match k {
         0 => Test::AccessNewer(s),
         1 => Test::ChangeNewer(s),
@@ -423,7 +438,8 @@ pub fn word(s: &str, quote: u8) -> Option<String> {
     if s.is_empty() {
         return None;
     }
-    let bare_ok = !s.chars().any(|c| c.is_whitespace() || c == ')' || c == '\'' || c == '"') && !s.starts_with('(');
+    // blanks are exactly space, tab, CR, LF; any other white space (NBSP, U+3000, VT, FF ...) is a word character
+    let bare_ok = !s.chars().any(|c| matches!(c, ' ' | '\t' | '\r' | '\n') || c == ')' || c == '\'' || c == '"') && !s.starts_with('(');
     let sq_ok = !s.contains('\'');
     let dq_ok = !s.contains('"');
     match quote {
